@@ -2,6 +2,7 @@
 """tools/merge_agent.py Cxx : merge a build agent's workspace /tmp/w-Cxx into /verif and /repo"""
 import sys, os, subprocess, shutil, re, json
 P = sys.argv[1]; p = P.lower(); W = f"/tmp/w-{P}"
+EXT = "-ext" if len(sys.argv) > 2 and sys.argv[2] == "ext" else ""
 def sh(cmd, **kw): return subprocess.run(cmd, shell=True, text=True, capture_output=True, **kw)
 # 1. files
 src = f"{W}/verif"
@@ -17,7 +18,7 @@ for f in os.listdir(f"{src}/checks"):
 for d in ["extract", f"corpus/{P}", f"facts"]:
     if os.path.isdir(f"{src}/{d}"):
         r = sh(f"rsync -a --exclude '*.test' {src}/{d}/ /verif/{d}/"); print("rsync", d, r.returncode)
-shutil.copy(f"{src}/REPORT-{P}.md", f"/verif/reports/REPORT-{P}.md") if os.path.exists(f"{src}/REPORT-{P}.md") and (os.makedirs("/verif/reports", exist_ok=True) or True) else None
+shutil.copy(f"{src}/REPORT-{P}{EXT}.md", f"/verif/reports/REPORT-{P}{EXT}.md") if os.path.exists(f"{src}/REPORT-{P}{EXT}.md") and (os.makedirs("/verif/reports", exist_ok=True) or True) else None
 # other changed files outside the usual places
 r = sh(f"cd {src} && diff -rq . /verif -x .lake -x work -x replays -x evidence -x .git -x __pycache__ -x go.sum -x go.mod | grep -v 'Only in /verif' | head -40")
 print("remaining differences:\n" + r.stdout)
